@@ -2,11 +2,12 @@
 EXTENDS Journal
 
 Acc(bal, nonce, code, stor, size) ==
-    [ex |-> TRUE, bal |-> bal, nonce |-> nonce, code |-> code, stor |-> stor, size |-> size, dead |-> FALSE]
+    [ex |-> TRUE, bal |-> bal, nonce |-> nonce, code |-> code, stor |-> stor, size |-> size, dead |-> FALSE,
+     tomb |-> FALSE, cst |-> stor]
 Z1 == [s \in 1..1 |-> 0]
 Z2 == [s \in 1..2 |-> 0]
-None1 == [ex |-> FALSE, bal |-> 0, nonce |-> 0, code |-> 0, stor |-> Z1, size |-> 0, dead |-> FALSE]
-None2 == [ex |-> FALSE, bal |-> 0, nonce |-> 0, code |-> 0, stor |-> Z2, size |-> 0, dead |-> FALSE]
+None1 == [ex |-> FALSE, bal |-> 0, nonce |-> 0, code |-> 0, stor |-> Z1, size |-> 0, dead |-> FALSE, tomb |-> FALSE, cst |-> Z1]
+None2 == [ex |-> FALSE, bal |-> 0, nonce |-> 0, code |-> 0, stor |-> Z2, size |-> 0, dead |-> FALSE, tomb |-> FALSE, cst |-> Z2]
 
 \* ---- journal level (level a): a1 = contract with one committed slot, a2 = plain account, a3 = absent
 GenJ1 == <<Acc(2, 1, 1, <<1>>, 1), Acc(1, 0, 0, Z1, 0), None1>>
@@ -45,4 +46,14 @@ LockEL == <<TRUE, TRUE, TRUE, TRUE, TRUE, TRUE, TRUE, TRUE, FALSE, FALSE, FALSE,
 FrEL == <<1, 2, 3, 4, 5, 6, 7, 8>>
 NewEL == <<11, 12, 13, 14>>
 XferEL == {9, 10}
+
+\* ---- several transactions per StateDB (Journal.tla part 3)
+\* journal level: the StateDB interface + Finalize/Prepare between transactions + Commit/reopen between blocks
+OpsJM == OpsJ \cup {"txend", "blockend"}
+OpsJT == OpsJ \cup {"txend"}
+\* EVM level: frame programs, several transactions on one StateDB/EVM (no cross-zone one-step transaction).  A value
+\* transfer may also go to K1/K2: possible once that contract is a tombstone (it self-destructed in an earlier transaction)
+OpsEM == OpsES \cup {"txend"}
+XferEM == {1, 2, 6, 7}
+XferELM == {1, 2, 3, 9, 10}
 =============================================================================
